@@ -289,7 +289,7 @@ pub fn check(s: &'static dyn Proto, c: &Case, st: &mut Stats, _k: &KnownFindings
 
 pub const BUDGET: Budget = Budget {
     quick: (200, 90, 36),
-    thorough: (1500, 500, 200),
+    thorough: (5000, 1600, 600),
     shrink: 60,
 };
 
